@@ -1,5 +1,1302 @@
-"""placeholder"""
+"""C18 engine: exports are all-or-nothing and leave no debris (fault sequences).
 
-def main(opts):
-    print("HARNESS-ERROR not built yet")
-    return 2
+A run = one pristine process, one sandbox on a real file system, a sequence of
+write_rtf / write_docx / write_html / write_pdf calls with injected faults,
+followed by fault-free recovery exports.  The only stub is the ``soffice``
+executable (a scripted shell script in the sandbox, run by the real
+``subprocess``); the real LibreOfficeConverter runs on top of it.
+Oracle: file-system snapshots before/after each export.  See DESIGN §6.
+"""
+
+from __future__ import annotations
+
+import errno
+import hashlib
+import os
+import shutil
+import stat
+import sys
+import tempfile
+import time
+
+from . import core, recipes as R
+from .core import HarnessError, cjson, digest
+
+PROP = "C18"
+KINDS = ["write_rtf", "write_docx", "write_html", "write_pdf"]
+FMT = {"write_docx": "docx", "write_html": "html", "write_pdf": "pdf"}
+SUFFIX = {"write_rtf": ".rtf", "write_docx": ".docx", "write_html": ".html", "write_pdf": ".pdf"}
+
+SOFFICE_SH = r"""#!/bin/sh
+# scripted stand-in for the LibreOffice executable (simulation only)
+BIN=$(dirname "$0")
+CTL="$BIN/../ctl"
+V_MODE=ok; C_MODE=ok; RES=0; SEQ=0
+[ -f "$CTL/behaviour" ] && . "$CTL/behaviour"
+if [ "$1" = "--version" ]; then
+  echo "VERSION $V_MODE" >> "$CTL/log"
+  case "$V_MODE" in
+    ok) echo "LibreOffice 24.8.3.2 480(Build:2)";;
+    fail) echo "boom" >&2; exit 3;;
+    garbage) echo "Some Office 1.0";;
+    old) echo "LibreOffice 6.4.7.2 40(Build:2)";;
+    vanish) echo "LibreOffice 24.8.3.2 480(Build:2)"; rm -f "$0";;
+  esac
+  exit 0
+fi
+fmt=""; outdir=""; input=""
+while [ $# -gt 0 ]; do
+  case "$1" in
+    --convert-to) fmt="$2"; shift 2;;
+    --outdir) outdir="$2"; shift 2;;
+    --*) shift;;
+    *) input="$1"; shift;;
+  esac
+done
+base=$(basename "$input"); stem="${base%.*}"
+out="$outdir/$stem.$fmt"
+echo "CONVERT $C_MODE $fmt" >> "$CTL/log"
+echo "INPUT $(sha256sum < "$input" | cut -c1-64)" >> "$CTL/log"
+wrote() { echo "WROTE $(sha256sum < "$1" | cut -c1-64) $1" >> "$CTL/log"; }
+full() { { printf 'FAKE-%s:%s:' "$fmt" "$SEQ"; sha256sum < "$input"; } > "$out"; wrote "$out"; }
+res() {
+  if [ "$fmt" = "html" ] && [ "$RES" -gt 0 ]; then
+    mkdir -p "$out"_files
+    printf 'IMG0-%s' "$SEQ" > "$out"_files/img0.png; wrote "$out"_files/img0.png
+    if [ "$RES" -gt 1 ]; then
+      mkdir -p "$out"_files/sub
+      printf 'IMG1-%s' "$SEQ" > "$out"_files/sub/img1.png; wrote "$out"_files/sub/img1.png
+    fi
+  fi
+}
+case "$C_MODE" in
+  ok) full; res;;
+  fail_before) echo "conversion failed" >&2; exit 1;;
+  fail_after_partial) printf 'PARTIAL' > "$out"; echo "died" >&2; exit 77;;
+  fail_after_complete) full; res; echo "died late" >&2; exit 1;;
+  no_output) :;;
+  wrong_name) printf 'OTHER-%s' "$SEQ" > "$outdir/other.$fmt";;
+  stray) full; res; : > "$outdir/.~lock.$stem.$fmt#"; : > "$(dirname "$input")/.~lock.$base#";;
+esac
+exit 0
+"""
+
+V_MODES_FAIL = ["fail", "garbage", "old", "missing"]
+C_MODES_FAIL = ["fail_before", "fail_after_partial", "fail_after_complete", "no_output", "wrong_name", "vanish"]
+DUCK_BAD = ["ret_str", "ret_list", "ret_none", "ret_missing_path", "raise_after_output", "raise_before_output"]
+E_EXCS = ["InjectedFault", "MemoryError", "KeyboardInterrupt", "OSError"]
+
+
+# --------------------------------------------------------------------------
+# plan generation (pure)
+# --------------------------------------------------------------------------
+
+
+def gen_target(rng, kind: str) -> dict:
+    name = rng.choice(["report", "report.v2", "out put", "tbl-01", "r", "noext", ".hidden"])
+    suffix = SUFFIX[kind]
+    r = rng.random()
+    if r < 0.12:
+        suffix = ""  # suffix-less target
+    elif r < 0.2 and kind == "write_html":
+        suffix = ".htm"
+    t = {
+        "name": name + suffix,
+        "missing_parents": rng.choice([0, 0, 0, 1, 2, 3]),
+        "style": rng.choice(["str", "Path", "tilde", "relative"]),
+        "pre": rng.choice(["absent", "absent", "file", "file", "earlier"]),
+    }
+    if t["missing_parents"]:
+        t["pre"] = "absent"
+    return t
+
+
+def gen_fault(rng, kind: str, allow_e3_figure: bool, allow_e3_group: bool) -> dict:
+    """One fault for one export (or none)."""
+    r = rng.random()
+    if r < 0.3:
+        return {"kind": "none"}
+    if r < 0.6:
+        phase = "encode" if (kind == "write_rtf" or rng.random() < 0.5) else "convert"
+        return {"kind": "E", "phase": phase, "u": rng.random(), "exc": rng.choice(E_EXCS),
+                "mode": rng.choice(["call", "callret"]), "k": None}
+    if r < 0.7:
+        opts = ["font"]
+        if allow_e3_figure:
+            opts += ["fig_deleted", "fig_isdir"]
+        return {"kind": "E3", "what": rng.choice(opts), "n": rng.choice([1, 2, 5, 20])}
+    if kind == "write_rtf":
+        return {"kind": "E", "phase": "encode", "u": rng.random(), "exc": rng.choice(E_EXCS),
+                "mode": "call", "k": None}
+    r2 = rng.random()
+    if r2 < 0.25:
+        return {"kind": "V", "mode": rng.choice(V_MODES_FAIL)}
+    if r2 < 0.7:
+        return {"kind": "P", "mode": rng.choice(C_MODES_FAIL)}
+    return {"kind": "M", "mode": rng.choice(DUCK_BAD)}
+
+
+def gen_plan(rng) -> dict:
+    t = R.gen_toggles(rng)
+    t["small_nrow"] = rng.random() < 0.3
+    pal = R.gen_palette_of_specs(rng, t)
+    recs = [R.gen_recipe(rng, t, pal) for _ in range(rng.choice([1, 1, 2]))]
+    has_fig = [r["kind"] == "figure" for r in recs]
+    nops = rng.randint(1, 6)
+    ops = []
+    for _ in range(nops):
+        kind = rng.choice(KINDS)
+        di = rng.randrange(len(recs))
+        fault = gen_fault(rng, kind, has_fig[di], True)
+        conv = "none"
+        if kind != "write_rtf":
+            conv = rng.choice(["default", "default", "explicit", "reuse", "duck_ok"])
+            if fault["kind"] == "M":
+                conv = "duck_bad"
+            elif fault["kind"] == "V":
+                conv = "default"
+            elif fault["kind"] == "P" and conv == "duck_ok":
+                conv = "explicit"
+            elif fault["kind"] == "E" and fault["phase"] == "convert" and conv == "duck_ok":
+                conv = "explicit"
+        ops.append({"kind": kind, "doc": di, "target": gen_target(rng, kind), "fault": fault, "converter": conv,
+                    "res": rng.choice([0, 1, 2]) if kind == "write_html" else 0,
+                    "stray": rng.random() < 0.15})
+    # reuse an earlier target sometimes (existing file + existing resource dir)
+    for i in range(1, len(ops)):
+        if rng.random() < 0.35:
+            j = rng.randrange(i)
+            if ops[j]["kind"] == ops[i]["kind"]:
+                ops[i]["target"] = dict(ops[j]["target"], pre="earlier")
+    return {"recipes": recs, "ops": ops, "xdev": rng.random() < 0.4,
+            "recovery": True}
+
+
+# --------------------------------------------------------------------------
+# sandbox
+# --------------------------------------------------------------------------
+
+
+class Sandbox:
+    def __init__(self, root: str, xdev: bool):
+        self.root = root
+        self.out = os.path.join(root, "out")
+        self.home = os.path.join(root, "home")
+        self.cwd = os.path.join(root, "cwd")
+        self.bin = os.path.join(root, "bin")
+        self.ctl = os.path.join(root, "ctl")
+        self.fig = os.path.join(root, "fig")
+        self.alt = None
+        self.tmp = os.path.join(root, "tmp")
+        for d in (self.out, self.home, self.cwd, self.bin, self.ctl, self.fig, self.tmp):
+            os.makedirs(d, exist_ok=True)
+        self.xdev_effective = False
+        if xdev:
+            for base in ("/tmp", "/var/tmp"):
+                try:
+                    if os.path.isdir(base) and os.stat(base).st_dev != os.stat(root).st_dev:
+                        self.alt = tempfile.mkdtemp(prefix="rtflite_verif_x_", dir=base)
+                        self.tmp = os.path.join(self.alt, "tmp")
+                        os.makedirs(self.tmp)
+                        self.xdev_effective = True
+                        break
+                except OSError:
+                    continue
+        self.install_soffice()
+        self.seq = 0
+
+    def install_soffice(self):
+        p = os.path.join(self.bin, "soffice")
+        with open(p, "w") as fh:
+            fh.write(SOFFICE_SH)
+        os.chmod(p, 0o755)
+        self.soffice = p
+
+    def behaviour(self, v_mode="ok", c_mode="ok", res=0):
+        self.seq += 1
+        with open(os.path.join(self.ctl, "behaviour"), "w") as fh:
+            fh.write(f"V_MODE={v_mode}\nC_MODE={c_mode}\nRES={res}\nSEQ={self.seq}\n")
+        open(os.path.join(self.ctl, "log"), "w").close()
+
+    def log(self) -> list:
+        try:
+            with open(os.path.join(self.ctl, "log")) as fh:
+                return [l.rstrip("\n") for l in fh]
+        except OSError:
+            return []
+
+    def enter(self):
+        os.environ["TMPDIR"] = self.tmp
+        os.environ["HOME"] = self.home
+        os.environ["PATH"] = self.bin + ":/usr/bin:/bin"
+        tempfile.tempdir = self.tmp
+        os.chdir(self.cwd)
+
+    def roots(self) -> dict:
+        d = {"out": self.out, "home": self.home, "cwd": self.cwd, "tmp": self.tmp}
+        return d
+
+    def snapshot(self) -> dict:
+        snap = {}
+        for label, base in self.roots().items():
+            for dirpath, dirnames, filenames in os.walk(base):
+                dirnames.sort()
+                rel = os.path.relpath(dirpath, base)
+                key = label if rel == "." else f"{label}/{rel}"
+                snap[key] = ("d",)
+                for f in sorted(filenames):
+                    p = os.path.join(dirpath, f)
+                    try:
+                        st = os.lstat(p)
+                        if stat.S_ISLNK(st.st_mode):
+                            snap[f"{key}/{f}"] = ("l", os.readlink(p))
+                        else:
+                            with open(p, "rb") as fh:
+                                b = fh.read()
+                            snap[f"{key}/{f}"] = ("f", len(b), hashlib.sha256(b).hexdigest())
+                    except OSError as e:
+                        snap[f"{key}/{f}"] = ("?", e.errno)
+        return snap
+
+    def key_of(self, abspath: str) -> str:
+        ap = os.path.abspath(abspath)
+        for label, base in self.roots().items():
+            if ap == base:
+                return label
+            if ap.startswith(base + os.sep):
+                return f"{label}/{os.path.relpath(ap, base)}"
+        return "outside:" + ap
+
+    def cleanup(self):
+        if self.alt:
+            shutil.rmtree(self.alt, ignore_errors=True)
+        shutil.rmtree(self.root, ignore_errors=True)
+
+
+def resolve_target(sb: Sandbox, t: dict, op_index: int):
+    """Returns (argument to pass, absolute path)."""
+    from pathlib import Path
+
+    parents = [f"m{op_index}_{k}" for k in range(t["missing_parents"])]
+    style = t["style"]
+    if style == "tilde":
+        rel = os.path.join("docs", *parents, t["name"])
+        ab = os.path.join(sb.home, rel)
+        os.makedirs(os.path.join(sb.home, "docs"), exist_ok=True)
+        return "~/" + rel, ab
+    if style == "relative":
+        rel = os.path.join("rel", *parents, t["name"])
+        ab = os.path.join(sb.cwd, rel)
+        os.makedirs(os.path.join(sb.cwd, "rel"), exist_ok=True)
+        return rel, ab
+    ab = os.path.join(sb.out, *parents, t["name"])
+    return (Path(ab) if style == "Path" else ab), ab
+
+
+# --------------------------------------------------------------------------
+# duck-typed converters (public `converter=` parameter)
+# --------------------------------------------------------------------------
+
+
+class DuckConverter:
+    def __init__(self, mode: str, seq: int):
+        self.mode = mode
+        self.seq = seq
+        self.wrote: list = []
+        self.called = 0
+
+    def convert(self, input_files, output_dir, format="pdf", overwrite=False):
+        from pathlib import Path
+
+        self.called += 1
+        inp = Path(str(input_files))
+        out = Path(str(output_dir)) / f"{inp.stem}.{format}"
+        m = self.mode
+        if m == "raise_before_output":
+            raise RuntimeError("duck converter failed before output")
+        if m in ("ok", "raise_after_output", "ret_str", "ret_list"):
+            data = f"DUCK-{format}:{self.seq}:".encode() + hashlib.sha256(inp.read_bytes()).hexdigest().encode()
+            out.write_bytes(data)
+            self.wrote.append((str(out), hashlib.sha256(data).hexdigest()))
+        if m == "raise_after_output":
+            raise RuntimeError("duck converter failed after output")
+        if m == "ret_str":
+            return str(out)
+        if m == "ret_list":
+            return [out]
+        if m == "ret_none":
+            return None
+        if m == "ret_missing_path":
+            return Path(str(output_dir)) / f"nope.{format}"
+        return out
+
+
+# --------------------------------------------------------------------------
+# phase-aware injector
+# --------------------------------------------------------------------------
+
+
+class PhaseTracer:
+    """Counts library boundaries inside the encode / convert phases of one
+    export, optionally injects at the k-th eligible boundary of a phase or at
+    an instance of a given site, captures what rtf_encode() returned.
+
+    Phase roots (public API names only): a library frame named ``rtf_encode``
+    opens the encode phase; a library frame whose code lives in the module that
+    defines the converter class opens the convert phase."""
+
+    def __init__(self, inject: dict | None, collect: bool, convert_file: str | None):
+        from . import boot
+        from .trace import EXC_TYPES, _frame_in_cleanup_self, in_cleanup
+
+        self.boot = boot
+        self.EXC = EXC_TYPES
+        self.in_cleanup = in_cleanup
+        self.self_cleanup = _frame_in_cleanup_self
+        self.inject = inject
+        self.collect = collect
+        self.convert_file = convert_file
+        self.phase = None
+        self.root_frame = None
+        self.sites: dict = {}
+        self.counts = {"encode": 0, "convert": 0}
+        self.counts_ev = {"encode|call": 0, "encode|return": 0, "convert|call": 0, "convert|return": 0}
+        self.n = 0
+        self.fired = None
+        self.skipped_cleanup = 0
+        self.encoded: list = []  # strings returned by rtf_encode during this export
+        self.steps = 0
+        self._excf: set = set()
+        self.want_ret = bool(collect or (inject and (inject.get("mode") == "callret" or inject.get("event") == "return")))
+        self.tmp_dirs_alive_at_fire = None
+        self.converter_output_exists_at_fire = None
+
+    def __call__(self, frame, event, arg):
+        if event != "call":
+            return None
+        code = frame.f_code
+        if not self.boot.is_lib_code(code):
+            return None
+        is_root = False
+        if self.phase is None:
+            if code.co_name == "rtf_encode":
+                self.phase = "encode"
+                is_root = True
+            elif self.convert_file and code.co_filename == self.convert_file:
+                self.phase = "convert"
+                is_root = True
+            if is_root:
+                self.root_frame = frame
+        if self.phase is not None:
+            self._boundary(frame, "call")
+        if is_root or (self.want_ret and self.phase is not None):
+            frame.f_trace_lines = False
+            return self._local
+        return None
+
+    def _local(self, frame, event, arg):
+        if event == "return":
+            unwinding = id(frame) in self._excf
+            self._excf.discard(id(frame))
+            if frame is self.root_frame:
+                if self.phase == "encode" and not unwinding and isinstance(arg, str):
+                    self.encoded.append(arg)
+                if not unwinding and self.want_ret:
+                    self._boundary(frame, "return")
+                self.phase = None
+                self.root_frame = None
+            elif not unwinding and self.want_ret and self.phase is not None:
+                self._boundary(frame, "return")
+        elif event == "exception":
+            self._excf.add(id(frame))
+        return self._local
+
+    def _boundary(self, frame, ev):
+        self.steps += 1
+        ph = self.phase
+        self.counts[ph] += 1
+        self.counts_ev[f"{ph}|{ev}"] += 1
+        site = None
+        inj = self.inject
+        if self.collect or (inj and inj.get("site")):
+            site = self.boot.site_of(frame.f_code)
+        if self.collect:
+            key = f"{ph}|{ev}@{site}"
+            self.sites[key] = self.sites.get(key, 0) + 1
+        if inj is None or self.fired is not None:
+            return
+        if inj.get("site"):
+            if inj["phase"] != ph or inj["event"] != ev or inj["site"] != site:
+                return
+        else:
+            if inj["phase"] != ph:
+                return
+            if ev == "return" and inj.get("mode") != "callret":
+                return
+        self.n += 1
+        if self.n >= inj["k"]:
+            if self.in_cleanup(frame) or (ev == "return" and self.self_cleanup(frame)):
+                self.skipped_cleanup += 1
+                return
+            self.fired = {"phase": ph, "event": ev, "n": self.n, "site": self.boot.site_of(frame.f_code),
+                          "exc": inj["exc"]}
+            raise self.EXC[inj["exc"]](f"injected {inj['exc']} in {ph} phase at {ev} #{self.n}")
+
+
+# --------------------------------------------------------------------------
+# execution (pristine child)
+# --------------------------------------------------------------------------
+
+
+def _tmp_listing(sb: Sandbox) -> list:
+    try:
+        return sorted(os.listdir(sb.tmp))
+    except OSError:
+        return ["<unlistable>"]
+
+
+def exec_faults(arg) -> dict:
+    from . import boot
+
+    boot.bootstrap()
+    import rtflite
+    import rtflite.convert as conv_mod
+
+    plan = arg["plan"]
+    sb = Sandbox(arg["sb_root"], plan.get("xdev", False))
+    try:
+        return _exec_faults(plan, sb, rtflite, conv_mod, arg)
+    finally:
+        sb.cleanup()
+
+
+def _exec_faults(plan, sb, rtflite, conv_mod, arg) -> dict:
+    sb.enter()
+    convert_file = conv_mod.__file__
+    recs = plan["recipes"]
+    docs = []
+    doc_err = []
+    for r in recs:
+        try:
+            d, _ = R.build(r, None, None, sb.fig)
+            docs.append(d)
+            doc_err.append(None)
+        except BaseException as e:  # noqa: BLE001
+            docs.append(None)
+            doc_err.append(type(e).__name__)
+    log = []
+    reused_converter = [None]
+    ops = list(plan["ops"])
+    n_main = len(ops)
+    if plan.get("recovery"):
+        for kind in KINDS:
+            for di in range(len(recs)):
+                if docs[di] is None:
+                    continue
+                ops.append({"kind": kind, "doc": di, "recovery": True, "fault": {"kind": "none"},
+                            "target": {"name": f"recovery{di}{SUFFIX[kind]}", "missing_parents": 0, "style": "str",
+                                       "pre": "absent"},
+                            "converter": "default" if kind != "write_rtf" else "none", "res": 1, "stray": False})
+                break
+    collect = bool(arg.get("collect_sites"))
+    calib_ok = arg.get("calib_ok") or {}
+    # capture what rtf_encode() returns inside an export, independently of the
+    # tracer (a trace function that raised is uninstalled by the interpreter)
+    captured: list = []
+    doc_cls = type(next(d for d in docs if d is not None)) if any(d is not None for d in docs) else None
+    orig_encode = getattr(doc_cls, "rtf_encode", None) if doc_cls else None
+    if orig_encode is not None:
+        def _capturing_encode(self, *a, **k):
+            s = orig_encode(self, *a, **k)
+            if isinstance(s, str):
+                captured.append(s)
+            return s
+
+        doc_cls.rtf_encode = _capturing_encode
+    for i, op in enumerate(ops):
+        ev = {"i": i, "kind": op["kind"], "recovery": bool(op.get("recovery")), "fault": op["fault"],
+              "converter": op["converter"], "target": op["target"], "doc": op["doc"]}
+        doc = docs[op["doc"]]
+        if doc is None:
+            ev["skipped"] = "doc_construct_failed:" + str(doc_err[op["doc"]])
+            log.append(ev)
+            continue
+        sb.install_soffice() if not os.path.exists(sb.soffice) else None
+        targ_arg, targ_abs = resolve_target(sb, op["target"], i)
+        ev["target_key"] = sb.key_of(targ_abs)
+        pre = op["target"]["pre"]
+        if pre == "file" and not os.path.lexists(targ_abs):
+            os.makedirs(os.path.dirname(targ_abs), exist_ok=True)
+            with open(targ_abs, "wb") as fh:
+                fh.write(f"PRE-EXISTING {i} {op['target']['name']}".encode())
+        ev["target_pre_state"] = ("exists" if os.path.lexists(targ_abs) else
+                                  ("missing_parents" if not os.path.isdir(os.path.dirname(targ_abs)) else "absent"))
+        fault = op["fault"]
+        fk = fault["kind"]
+        # --- configure the converter process / object ------------------------
+        v_mode, c_mode = "ok", "ok"
+        if fk == "V":
+            v_mode = fault["mode"]
+        if fk == "P":
+            c_mode = fault["mode"] if fault["mode"] != "vanish" else "ok"
+            if fault["mode"] == "vanish":
+                v_mode = "vanish"
+        if op.get("stray") and c_mode == "ok":
+            c_mode = "stray"
+        sb.behaviour(v_mode=v_mode, c_mode=c_mode, res=op.get("res", 0))
+        kwargs = {}
+        duck = None
+        restore_path = None
+        construct_error = None
+        if op["kind"] != "write_rtf":
+            c = op["converter"]
+            try:
+                if fk == "V" and fault["mode"] == "missing":
+                    restore_path = os.environ["PATH"]
+                    os.environ["PATH"] = "/nonexistent-bin"
+                if c == "explicit" or (c == "reuse" and reused_converter[0] is None) or (fk == "P" and fault["mode"] == "vanish"):
+                    kwargs["converter"] = conv_mod.LibreOfficeConverter(executable_path=sb.soffice)
+                    if c == "reuse":
+                        reused_converter[0] = kwargs["converter"]
+                elif c == "reuse":
+                    kwargs["converter"] = reused_converter[0]
+                elif c == "duck_ok":
+                    duck = DuckConverter("ok", sb.seq)
+                    kwargs["converter"] = duck
+                elif c == "duck_bad":
+                    duck = DuckConverter(fault["mode"], sb.seq)
+                    kwargs["converter"] = duck
+            except BaseException as e:  # noqa: BLE001
+                construct_error = type(e).__name__
+        # --- E3 natural failures ----------------------------------------------
+        undo = []
+        if fk == "E3":
+            undo = _arm_e3(fault, doc, sb)
+            ev["e3_armed"] = bool(undo)
+        # --- tracer -------------------------------------------------------------
+        inject = None
+        if fk == "E":
+            k = fault.get("k")
+            if k is None:
+                base = arg.get("phase_counts", {}).get(f"{op['kind']}|{op['doc']}|{fault['phase']}|{fault.get('mode', 'call')}", 0)
+                k = 1 + int(fault["u"] * base) if base else None
+            if k is not None:
+                inject = {"phase": fault["phase"], "k": k, "exc": fault["exc"], "mode": fault.get("mode", "call"),
+                          "site": fault.get("site"), "event": fault.get("event", "call")}
+            ev["k"] = k
+        tr = PhaseTracer(inject, collect, convert_file)
+        before = sb.snapshot()
+        tmp_before = _tmp_listing(sb)
+        outcome = None
+        del captured[:]
+        old = sys.gettrace()
+        sys.settrace(tr)
+        try:
+            try:
+                getattr(doc, op["kind"])(targ_arg, **kwargs)
+                outcome = {"k": "returned"}
+            except BaseException as e:  # noqa: BLE001
+                outcome = {"k": "raised", "type": type(e).__name__, "msg": str(e)[:160]}
+        finally:
+            sys.settrace(old)
+        for u in undo:
+            try:
+                u()
+            except Exception:
+                pass
+        if restore_path is not None:
+            os.environ["PATH"] = restore_path
+        after = sb.snapshot()
+        ev["outcome"] = outcome
+        ev["construct_error"] = construct_error
+        ev["fired"] = tr.fired
+        ev["phase_counts"] = dict(tr.counts)
+        ev["phase_counts_ev"] = dict(tr.counts_ev)
+        ev["skipped_cleanup"] = tr.skipped_cleanup
+        enc = list(captured) or list(tr.encoded)
+        ev["encoded_via"] = "call" if enc else None
+        if not enc and outcome["k"] == "returned" and op["kind"] == "write_rtf":
+            # the export did not go through the public rtf_encode(): fall back to
+            # encoding once more ourselves (equal by C14 on a tree where that holds)
+            try:
+                enc = [orig_encode(doc)]
+                ev["encoded_via"] = "post"
+            except BaseException:  # noqa: BLE001
+                enc = []
+        ev["encoded_sha"] = [hashlib.sha256(s.encode("utf-8", "surrogatepass")).hexdigest() for s in enc]
+        ev["encoded_n"] = len(enc)
+        ev["natural_ok"] = calib_ok.get(f"{op['kind']}|{op['doc']}")
+        ev["stub_log"] = sb.log()
+        ev["duck"] = {"mode": duck.mode, "called": duck.called, "wrote": duck.wrote} if duck else None
+        ev["tmp_before"] = tmp_before
+        ev["tmp_after"] = _tmp_listing(sb)
+        ev["diff"] = snap_diff(before, after)
+        tk = ev["target_key"]
+        ev["target_before"] = before.get(tk)
+        ev["target_after"] = after.get(tk)
+        ev["xdev"] = sb.xdev_effective
+        if collect:
+            ev["sites"] = tr.sites
+        ev["steps"] = tr.steps
+        tdir = tk.rsplit("/", 1)[0]
+        ev["dir_after"] = {k: list(val) for k, val in after.items() if k.startswith(tdir + "/")}
+        log.append(ev)
+    if orig_encode is not None:
+        doc_cls.rtf_encode = orig_encode
+    return {"log": log, "n_main": n_main, "xdev": sb.xdev_effective}
+
+
+def _arm_e3(fault, doc, sb):
+    """Arrange a *natural* failure of the next encode; returns undo callbacks."""
+    what = fault["what"]
+    undo = []
+    if what in ("fig_deleted", "fig_isdir"):
+        fig = getattr(doc, "rtf_figure", None)
+        paths = list(getattr(fig, "figures", None) or []) if fig is not None else []
+        if not paths:
+            return []
+        p = str(paths[0])
+        bak = p + ".bak"
+        os.rename(p, bak)
+        if what == "fig_isdir":
+            os.mkdir(p)
+
+            def restore():
+                os.rmdir(p)
+                os.rename(bak, p)
+        else:
+            def restore():
+                os.rename(bak, p)
+        undo.append(restore)
+    elif what == "font":
+        try:
+            import rtflite.strwidth as sw
+        except Exception:
+            return []
+        real = getattr(sw, "ImageFont", None)
+        if real is None:
+            return []
+        n = [0]
+        limit = fault.get("n", 1)
+
+        class Proxy:
+            def __getattr__(self, name):
+                return getattr(real, name)
+
+            def truetype(self, *a, **k):
+                n[0] += 1
+                if n[0] >= limit:
+                    raise OSError("cannot open resource")
+                return real.truetype(*a, **k)
+
+        sw.ImageFont = Proxy()
+        undo.append(lambda: setattr(sw, "ImageFont", real))
+    return undo
+
+
+def snap_diff(before: dict, after: dict) -> dict:
+    added = sorted(k for k in after if k not in before)
+    removed = sorted(k for k in before if k not in after)
+    changed = sorted(k for k in after if k in before and after[k] != before[k])
+    return {"added": [[k, list(after[k])] for k in added], "removed": removed,
+            "changed": [[k, list(before[k]), list(after[k])] for k in changed]}
+
+
+# --------------------------------------------------------------------------
+# judging (pure)
+# --------------------------------------------------------------------------
+
+
+def _ancestors(key: str) -> set:
+    parts = key.split("/")
+    return {"/".join(parts[:i]) for i in range(1, len(parts))}
+
+
+def expected_failure(ev) -> bool:
+    """Did a fault fire that means encoding or conversion failed?"""
+    f = ev["fault"]
+    fk = f["kind"]
+    if ev.get("construct_error"):
+        return True
+    if fk == "V":
+        return True
+    if fk == "P":
+        return f["mode"] in C_MODES_FAIL
+    if fk == "M":
+        return True
+    return False
+
+
+def judge_event(ev) -> list:
+    """Violations of one export (list of dicts)."""
+    if ev.get("skipped"):
+        return []
+    out = []
+    kind = ev["kind"]
+    oc = ev["outcome"]
+    tk = ev["target_key"]
+    diff = ev["diff"]
+    added = {k: v for k, v in diff["added"]}
+    changed = {k: (b, a) for k, b, a in diff["changed"]}
+    removed = set(diff["removed"])
+    fk = ev["fault"]["kind"]
+    fired_any = (bool(ev.get("fired")) or expected_failure(ev) or (fk == "E3" and ev.get("e3_armed"))
+                 or ev.get("natural_ok") is False)
+
+    def v(cls, **kw):
+        d = {"class": cls, "kind": kind, "fault": fk, "fault_mode": ev["fault"].get("mode") or ev["fault"].get("what")
+             or ev["fault"].get("phase"), "target_pre_state": ev["target_pre_state"], "outcome": oc["k"],
+             "recovery": ev["recovery"], "converter": ev["converter"]}
+        d.update(kw)
+        out.append(d)
+
+    tmp_new = [k for k in list(added) + list(changed) if k == "tmp" or k.startswith("tmp/")]
+    tmp_new = [k for k in tmp_new if k != "tmp"]
+    if ev["tmp_after"] != ev["tmp_before"] or tmp_new:
+        v("temp_debris", detail={"before": ev["tmp_before"][:5], "after": ev["tmp_after"][:8]})
+
+    if oc["k"] == "raised":
+        if not fired_any and ev.get("construct_error") is None:
+            # nothing was injected and nothing natural was arranged: the export must work
+            v("raised_without_fault", detail=oc)
+        # (a) target unchanged / still absent
+        if ev["target_before"] != ev["target_after"]:
+            v("target_changed_on_failure" if ev["target_before"] is not None else "partial_target_created",
+              detail={"before": ev["target_before"], "after": ev["target_after"]})
+        # (c) nothing else changed except new empty ancestor directories of the target
+        anc = _ancestors(tk)
+        for k, val in added.items():
+            if k == tk or k.startswith("tmp/"):
+                continue
+            if val[0] == "d" and k in anc:
+                continue
+            v("stray_output_on_failure", detail={"path": k, "what": val})
+            break
+        for k in changed:
+            if k == tk or k.startswith("tmp/"):
+                continue
+            v("other_file_changed_on_failure", detail={"path": k})
+            break
+        for k in removed:
+            if k.startswith("tmp/"):
+                continue
+            v("file_removed_on_failure", detail={"path": k})
+            break
+    else:
+        if expected_failure(ev) and not ev.get("construct_error"):
+            v("failure_swallowed", detail={"fault": ev["fault"]})
+        # success: where did the output go?
+        ta = ev["target_after"]
+        anc = _ancestors(tk)
+        allowed_new = set(anc) | {tk}
+        if kind == "write_rtf":
+            if not ev["encoded_sha"]:
+                v("no_encode_observed")
+            elif ta is None or ta[0] != "f" or ta[2] != ev["encoded_sha"][-1]:
+                v("stored_bytes_differ_from_rtf_encode", detail={"target": ta, "encoded": ev["encoded_sha"][-1][:16]})
+        else:
+            wrote = []
+            if ev.get("duck") and ev["duck"]["wrote"]:
+                wrote = [(p, s) for p, s in ev["duck"]["wrote"]]
+            else:
+                for line in ev["stub_log"]:
+                    if line.startswith("WROTE "):
+                        _, sha, path = line.split(" ", 2)
+                        wrote.append((path, sha))
+            main = [(p, s) for p, s in wrote if "_files/" not in p and not os.path.basename(p).startswith(".~lock")]
+            res = [(p, s) for p, s in wrote if "_files/" in p]
+            if not main:
+                if not expected_failure(ev):
+                    v("returned_without_converter_output")
+            else:
+                mp, ms = main[-1]
+                if ta is None or ta[0] != "f" or ta[2] != ms:
+                    v("target_is_not_converter_output", detail={"target": ta, "converter_sha": ms[:16]})
+                # resource directory: <target dir>/<converted name>_files, exactly what the stub wrote
+                if res:
+                    conv_name = os.path.basename(mp)
+                    res_root_src = os.path.join(os.path.dirname(mp), conv_name + "_files")
+                    tdir = tk.rsplit("/", 1)[0]
+                    res_key = f"{tdir}/{conv_name}_files"
+                    exp = {res_key: ["d"]}
+                    for p, s in res:
+                        rel = os.path.relpath(p, res_root_src)
+                        parts = rel.split(os.sep)
+                        for j in range(1, len(parts)):
+                            exp[res_key + "/" + "/".join(parts[:j])] = ["d"]
+                        exp[res_key + "/" + rel.replace(os.sep, "/")] = ["f", s]
+                    allowed_new |= set(exp)
+                    ra = ev.get("dir_after", {})
+                    want = {k: (val[0],) + ((val[1],) if len(val) > 1 else ()) for k, val in exp.items()}
+                    have = {k: (val[0],) + ((val[2],) if val[0] == "f" else ()) for k, val in ra.items()
+                            if k == res_key or k.startswith(res_key + "/")}
+                    if want != have:
+                        v("resource_dir_mismatch", detail={"missing": sorted(set(want) - set(have))[:4],
+                                                           "unexpected": sorted(set(have) - set(want))[:4],
+                                                           "differs": sorted(k for k in want if k in have and want[k] != have[k])[:4]})
+                    allowed_new |= set(have)
+        for k, val in added.items():
+            if k in allowed_new or k.startswith("tmp/"):
+                continue
+            v("stray_output_on_success", detail={"path": k, "what": val})
+            break
+        for k in changed:
+            if k in allowed_new or k.startswith("tmp/"):
+                continue
+            v("other_file_changed_on_success", detail={"path": k})
+            break
+        for k in removed:
+            if k in allowed_new or k.startswith("tmp/") or any(k.startswith(a + "/") for a in allowed_new if a.endswith("_files")):
+                continue
+            v("file_removed_on_success", detail={"path": k})
+            break
+    return out
+
+
+def judge(plan: dict, res: dict) -> list:
+    out = []
+    for ev in res["log"]:
+        for v in judge_event(ev):
+            v["at"] = ev["i"]
+            out.append(v)
+    return out
+
+
+def signature(v: dict) -> dict:
+    return {"class": v["class"], "kind": v["kind"], "fault": v["fault"], "fault_mode": v.get("fault_mode"),
+            "target_pre_state": v["target_pre_state"], "recovery": v["recovery"]}
+
+
+# --------------------------------------------------------------------------
+# calibration, running, minimising, replay
+# --------------------------------------------------------------------------
+
+
+def calibration_plan(recipe: dict) -> dict:
+    ops = []
+    for kind in KINDS:
+        ops.append({"kind": kind, "doc": 0, "fault": {"kind": "none"},
+                    "target": {"name": "cal" + SUFFIX[kind], "missing_parents": 0, "style": "str", "pre": "absent"},
+                    "converter": "default" if kind != "write_rtf" else "none", "res": 1, "stray": False})
+    return {"recipes": [recipe], "ops": ops, "xdev": False, "recovery": False}
+
+
+class Calib:
+    """Per-recipe fault-free traced exports: boundary counts per phase and the
+    set of (phase, event, site) with instance counts."""
+
+    def __init__(self, base_dir: str):
+        self.base = base_dir
+        self.cache: dict = {}
+        self.n = 0
+
+    def sb_root(self) -> str:
+        self.n += 1
+        return tempfile.mkdtemp(prefix="sb_", dir=self.base)
+
+    def get(self, recipe: dict) -> dict:
+        h = R.recipe_hash(recipe)
+        if h in self.cache:
+            return self.cache[h]
+        res = core.run_in_child(exec_faults, {"plan": calibration_plan(recipe), "sb_root": self.sb_root(),
+                                              "collect_sites": True})
+        out = {"counts": {}, "sites": {}, "ok": {}}
+        for ev in res["log"]:
+            if ev.get("skipped"):
+                continue
+            kind = ev["kind"]
+            out["ok"][kind] = ev["outcome"]["k"] == "returned"
+            ce = ev["phase_counts_ev"]
+            for ph in ("encode", "convert"):
+                out["counts"][f"{kind}|{ph}|call"] = ce[f"{ph}|call"]
+                out["counts"][f"{kind}|{ph}|callret"] = ce[f"{ph}|call"] + ce[f"{ph}|return"]
+            out["sites"][kind] = ev.get("sites", {})
+        self.cache[h] = out
+        return out
+
+    def ok_for(self, plan: dict) -> dict:
+        d = {}
+        for di, r in enumerate(plan["recipes"]):
+            for kind, ok in self.get(r)["ok"].items():
+                d[f"{kind}|{di}"] = ok
+        return d
+
+    def phase_counts_for(self, plan: dict) -> dict:
+        pc = {}
+        for di, r in enumerate(plan["recipes"]):
+            c = self.get(r)["counts"]
+            for k, n in c.items():
+                kind, ph, mode = k.split("|")
+                pc[f"{kind}|{di}|{ph}|{mode}"] = n
+        return pc
+
+
+def run_plan(plan: dict, calib: Calib, collect=False) -> dict:
+    return core.run_in_child(exec_faults, {"plan": plan, "sb_root": calib.sb_root(),
+                                           "phase_counts": calib.phase_counts_for(plan),
+                                           "calib_ok": calib.ok_for(plan), "collect_sites": collect})
+
+
+def freeze(plan: dict, res: dict) -> dict:
+    import json
+
+    p = json.loads(json.dumps(plan))
+    for ev in res["log"]:
+        if ev["i"] < len(p["ops"]) and ev.get("k") is not None and p["ops"][ev["i"]]["fault"]["kind"] == "E":
+            p["ops"][ev["i"]]["fault"]["k"] = ev["k"]
+    return p
+
+
+def minimise(plan: dict, calib: Calib, cls: str, at: int, budget_n=60) -> dict:
+    budget = [budget_n]
+    cur = dict(plan)
+
+    def test(ops):
+        cand = dict(cur, ops=ops, recovery=False)
+        try:
+            res = run_plan(cand, calib)
+        except HarnessError:
+            return False
+        return any(v["class"] == cls for v in judge(cand, res))
+
+    ops = list(plan["ops"][: at + 1]) if at < len(plan["ops"]) else list(plan["ops"])
+    budget[0] -= 1
+    if at < len(plan["ops"]) and test(ops):
+        cur["ops"] = ops
+        cur["recovery"] = False
+        if len(ops) > 1:
+            cur["ops"] = core.ddmin(ops, test, budget)
+    return cur
+
+
+def replay_worker(arg) -> dict:
+    from . import boot
+
+    boot.bootstrap()
+    plan = arg["plan"]
+    base = tempfile.mkdtemp(prefix="vreplay18")
+    try:
+        calib = Calib(base)
+        res = run_plan(plan, calib)
+        vs = judge(plan, res)
+        return {"violations": vs, "signatures": [signature(v) for v in vs], "log_digest": run_digest(res)}
+    finally:
+        shutil.rmtree(base, ignore_errors=True)
+
+
+def run_digest(res: dict) -> str:
+    slim = []
+    for ev in res["log"]:
+        e = {k: v for k, v in ev.items() if k not in ("sites", "tmp_before", "tmp_after", "dir_after", "stub_log",
+                                                      "diff", "duck", "target_key", "xdev")}
+        # temp names are random by design of tempfile; keep only their counts / shapes
+        if "outcome" in e:
+            e["outcome"] = {k: v for k, v in e["outcome"].items() if k != "msg"}  # messages quote temp paths
+        e["tmp_n"] = [len(ev.get("tmp_before", [])), len(ev.get("tmp_after", []))]
+        e["diff_shape"] = {"added": [k for k, _ in ev["diff"]["added"] if not k.startswith("tmp/")],
+                           "removed": [k for k in ev["diff"]["removed"] if not k.startswith("tmp/")],
+                           "changed": [k for k, _, _ in ev["diff"]["changed"] if not k.startswith("tmp/")]} if "diff" in ev else None
+        e["stub"] = [l.split(" ")[0:2] for l in ev.get("stub_log", [])]
+        slim.append(e)
+    return digest(slim)
+
+
+# --------------------------------------------------------------------------
+# jobs
+# --------------------------------------------------------------------------
+
+_worker_state: dict = {}
+
+
+def _ws():
+    if _worker_state.get("pid") != os.getpid():
+        base = tempfile.mkdtemp(prefix="vc18_")
+        _worker_state.clear()
+        _worker_state.update(pid=os.getpid(), base=base, calib=Calib(base), minimised=0)
+    return _worker_state
+
+
+def job(j: dict) -> dict:
+    ws = _ws()
+    idx = j["idx"]
+    plan = j["plan"] if "plan" in j else gen_plan(core.rng_for(j["root"], PROP, idx))
+    t0 = time.monotonic()
+    res = run_plan(plan, ws["calib"])
+    vs = judge(plan, res)
+    out = summarise(plan, res, idx)
+    out["site_job"] = j.get("site_job")
+    out["ms"] = int((time.monotonic() - t0) * 1000)
+    out["violations"] = []
+    if vs:
+        v = vs[0]
+        fplan = freeze(plan, res)
+        if ws["minimised"] < 2:
+            ws["minimised"] += 1
+            try:
+                fplan = minimise(fplan, ws["calib"], v["class"], v["at"])
+            except HarnessError:
+                pass
+        out["violations"].append({"v": v, "sig": signature(v), "plan": fplan, "seed_idx": idx})
+    return out
+
+
+def summarise(plan, res, idx) -> dict:
+    log = [e for e in res["log"] if not e.get("skipped")]
+    cells = set()
+    nontriv = set()
+    fk: dict = {}
+    for e in log:
+        f = e["fault"]
+        kind = f["kind"]
+        mode = f.get("mode") or f.get("what") or f.get("phase") or ""
+        fired = bool(e.get("fired")) or (kind in ("V", "P", "M")) or (kind == "E3" and e.get("e3_armed"))
+        key = f"{kind}:{mode}" if kind != "E" else f"E:{f.get('phase')}"
+        if e.get("natural_ok") is False:
+            nd = fk.setdefault("E3:natural_document_failure", {"configured": 0, "fired": 0, "swallowed": 0})
+            nd["configured"] += 1
+            nd["fired"] += 1
+        d = fk.setdefault(key, {"configured": 0, "fired": 0, "swallowed": 0})
+        if kind != "none":
+            d["configured"] += 1
+            if fired:
+                d["fired"] += 1
+                if e["outcome"]["k"] == "returned":
+                    d["swallowed"] += 1
+        phase = (e["fired"] or {}).get("phase") if e.get("fired") else (
+            "construct" if kind == "V" else ("convert" if kind in ("P", "M") else ("encode" if kind == "E3" else "-")))
+        cells.add(f"{e['target_pre_state']}|{e['kind']}|{phase if fired else 'nofault'}")
+        if fired or e["target_pre_state"] == "exists":
+            site = (e["fired"] or {}).get("site") if e.get("fired") else mode
+            inst = "first" if (e.get("fired") or {}).get("n") == 1 else "later"
+            nontriv.add(digest((e["kind"], key, site, inst, e["target_pre_state"])))
+    probes = {
+        "fault_after_converter_output_existed": sum(
+            1 for e in log if (e.get("fired") or {}).get("phase") == "convert" and any(l.startswith("WROTE") for l in e["stub_log"])),
+        "export_onto_existing_resource_dir": sum(
+            1 for e in log if e["kind"] == "write_html" and e["outcome"]["k"] == "returned"
+            and any(c[0].endswith("_files") or "_files/" in c[0] for c in e["diff"]["changed"])
+            or (e["kind"] == "write_html" and any("_files/" in r for r in e["diff"]["removed"]))),
+        "cross_device_runs": 1 if res.get("xdev") else 0,
+        "injection_skipped_in_cleanup_region": sum(e.get("skipped_cleanup", 0) for e in log),
+    }
+    return {
+        "idx": idx, "digest": run_digest(res), "exports": len(log),
+        "returned": sum(1 for e in log if e["outcome"]["k"] == "returned"),
+        "raised": sum(1 for e in log if e["outcome"]["k"] == "raised"),
+        "recovery_exports": sum(1 for e in log if e["recovery"]),
+        "fault_kinds": fk, "cells": sorted(cells), "nontrivial": sorted(nontriv), "probes": probes,
+        "steps": sum(e.get("steps", 0) for e in log),
+        "sample": {"ops": [{"kind": o["kind"], "fault": o["fault"], "target": o["target"], "converter": o["converter"]}
+                           for o in plan["ops"]],
+                   "outcomes": [e["outcome"] for e in log]} if idx < 3 else None,
+    }
+
+
+# --------------------------------------------------------------------------
+# site-exhaustive fault placement (DESIGN §6 E1/E2)
+# --------------------------------------------------------------------------
+
+
+def site_docs(root: int, n: int) -> list:
+    rng = core.rng_for(root, PROP, "site-docs")
+    want = ["single", "multi", "figure", "single", "single", "multi"]
+    docs = []
+    for kind in (want * 5)[:n]:
+        for _ in range(300):
+            t = R.gen_toggles(rng)
+            t["small_nrow"] = rng.random() < 0.5
+            if kind == "figure":
+                t["figure"] = True
+            if kind == "multi":
+                t["multi"] = True
+            pal = R.gen_palette_of_specs(rng, t)
+            r = R.gen_recipe(rng, t, pal)
+            if r["kind"] != kind:
+                continue
+            if any(f["cols"][0][2][:3] == ["G1", "G2", "G1"] for f in r.get("dfs", [])):
+                continue
+            if sum(len(f["cols"][0][2]) for f in r.get("dfs", [])) > 12:
+                continue
+            docs.append(r)
+            break
+    return docs
+
+
+def site_jobs(root: int, docs: list, calib: Calib, instances=("first", "last", "random")) -> tuple:
+    jobs = []
+    idx = 20_000_000
+    total_sites = 0
+    for di, r in enumerate(docs):
+        c = calib.get(r)
+        for kind in KINDS:
+            if not c["ok"].get(kind):
+                continue  # document does not export fault-free; nothing to place
+            for key, count in sorted(c["sites"].get(kind, {}).items()):
+                ph, rest = key.split("|", 1)
+                ev, site = rest.split("@", 1)
+                total_sites += 1
+                rng = core.rng_for(root, PROP, "site", di, kind, key)
+                ks = {1}
+                if "last" in instances:
+                    ks.add(count)
+                if "random" in instances and count > 2:
+                    ks.add(rng.randrange(2, count))
+                for k in sorted(ks):
+                    tgt = gen_target(rng, kind)
+                    conv = "none" if kind == "write_rtf" else rng.choice(["default", "explicit"])
+                    fault = {"kind": "E", "phase": ph, "site": site, "event": ev, "k": k,
+                             "exc": rng.choice(E_EXCS), "mode": "callret" if ev == "return" else "call"}
+                    op = {"kind": kind, "doc": 0, "target": tgt, "fault": fault, "converter": conv,
+                          "res": rng.choice([0, 1, 2]) if kind == "write_html" else 0, "stray": False}
+                    follow = dict(op, fault={"kind": "none"}, target=dict(tgt, pre="earlier"))
+                    plan = {"recipes": [r], "ops": [op, follow], "xdev": rng.random() < 0.3, "recovery": False}
+                    jobs.append({"idx": idx, "plan": plan, "site_job": {"doc": di, "kind": kind, "key": key, "k": k,
+                                                                        "count": count}})
+                    idx += 1
+    return jobs, total_sites
+
+
+def matrix_jobs(root: int, docs: list) -> list:
+    """Every P/M/V fault kind x every target state x every converting export."""
+    jobs = []
+    idx = 30_000_000
+    rng = core.rng_for(root, PROP, "matrix")
+    faults = ([{"kind": "V", "mode": m} for m in V_MODES_FAIL] + [{"kind": "P", "mode": m} for m in C_MODES_FAIL]
+              + [{"kind": "M", "mode": m} for m in DUCK_BAD])
+    states = [{"pre": "absent", "missing_parents": 0}, {"pre": "file", "missing_parents": 0},
+              {"pre": "absent", "missing_parents": 2}, {"pre": "earlier", "missing_parents": 0}]
+    r = docs[0]
+    for kind in ("write_docx", "write_html", "write_pdf"):
+        for f in faults:
+            for st in states:
+                tgt = {"name": "m" + SUFFIX[kind], "style": rng.choice(["str", "Path", "tilde", "relative"]), **st}
+                conv = "duck_bad" if f["kind"] == "M" else ("default" if f["kind"] == "V" else "explicit")
+                ops = []
+                if st["pre"] == "earlier":
+                    ops.append({"kind": kind, "doc": 0, "target": dict(tgt, pre="absent"), "fault": {"kind": "none"},
+                                "converter": "default", "res": 2, "stray": False})
+                ops.append({"kind": kind, "doc": 0, "target": tgt, "fault": f, "converter": conv, "res": 1,
+                            "stray": False})
+                jobs.append({"idx": idx, "plan": {"recipes": [r], "ops": ops, "xdev": rng.random() < 0.3,
+                                                  "recovery": True}, "site_job": None})
+                idx += 1
+    return jobs
+
+
+# --------------------------------------------------------------------------
+# batch
+# --------------------------------------------------------------------------
+
+TIERS = {"quick": {"runs": 1500, "wall": 420.0, "site_docs": 3, "instances": ("first", "last")},
+         "thorough": {"runs": 40000, "wall": 3000.0, "site_docs": 12, "instances": ("first", "last", "random")}}
+
+
+def main(opts) -> int:
+    from . import boot, cli
+
+    t0 = time.monotonic()
+    boot.bootstrap()
+    tier = TIERS[opts.tier]
+    runs = opts.runs if opts.runs is not None else tier["runs"]
+    wall = opts.wall or tier["wall"]
+    root = opts.seed
+    base = tempfile.mkdtemp(prefix="vc18main_")
+    calib = Calib(base)
+    docs = site_docs(root, tier["site_docs"])
+    sjobs, total_sites = site_jobs(root, docs, calib, tier["instances"])
+    mjobs = matrix_jobs(root, docs)
+    jobs = sjobs + mjobs + [{"root": root, "idx": i} for i in range(runs)]
+    results, truncated = core.pool_map(job, jobs, wall_cap=wall)
+    herrs = [f"run {jobs[i].get('idx')}: {r['harness_error'][:600]}" for i, r in sorted(results.items())
+             if "harness_error" in r]
+    good = [r for _, r in sorted(results.items()) if "harness_error" not in r]
+    violations = [v for r in good for v in r["violations"]]
+
+    def confirm(v):
+        got = core.run_fresh("sim.faults:replay_worker", {"plan": v["plan"]}, hashseed=0, timeout=300)
+        return bool(got["signatures"])
+
+    def body(v):
+        return {"property": PROP, "engine": "faults", "signature": v["sig"], "violation": v["v"],
+                "plan": v["plan"], "root_seed": root, "seed_idx": v["seed_idx"], "how": "./check replay <this file>"}
+
+    n_new, n_known, rcode = cli.report(PROP, violations, herrs, confirm, body)
+    wall_s = time.monotonic() - t0
+    if not opts.no_evidence:
+        write_evidence(opts, good, jobs, len(results), truncated, sjobs, mjobs, total_sites, docs, tier,
+                       n_new, n_known, wall_s, herrs)
+    print(f"C18 {opts.tier}: {len(good)} runs ({len(sjobs)} site placements over {total_sites} sites, {len(mjobs)} "
+          f"matrix cells, {runs} seeded sequences), {sum(r['exports'] for r in good)} exports, {n_new} new "
+          f"violation(s), {n_known} known, {len(herrs)} harness error(s), {wall_s:.1f}s"
+          + (" [truncated by wall cap]" if truncated else ""))
+    return rcode
+
+
+def write_evidence(opts, good, jobs, nres, truncated, sjobs, mjobs, total_sites, docs, tier, n_new, n_known, wall_s,
+                   herrs):
+    from . import boot
+
+    fk: dict = {}
+    cells = set()
+    nontriv = set()
+    probes: dict = {}
+    for r in good:
+        for k, d in r["fault_kinds"].items():
+            t = fk.setdefault(k, {"configured": 0, "fired": 0, "swallowed": 0})
+            for kk in t:
+                t[kk] += d[kk]
+        cells.update(r["cells"])
+        nontriv.update(r["nontrivial"])
+        for k, v in r["probes"].items():
+            probes[k] = probes.get(k, 0) + v
+    site_done = [r for r in good if r.get("site_job")]
+    sites_hit = {(r["site_job"]["doc"], r["site_job"]["kind"], r["site_job"]["key"]) for r in site_done}
+    site_fired = sum(1 for r in site_done if any(d["fired"] for k, d in r["fault_kinds"].items() if k.startswith("E:")))
+    cov = {
+        "evaluations": len(good),
+        "distinct_nontrivial": len(nontriv),
+        "rule": ("one evaluation = one pristine process running a sequence of exports (write_rtf/docx/html/pdf) in a "
+                 "fresh sandbox on a real file system with a scripted soffice executable, then fault-free recovery "
+                 "exports. Fault placement: (1) site-exhaustive - for each listed document and export kind, an "
+                 "exception at the first/last(/a random) instance of every library call site and return site seen "
+                 "inside the encode and convert phases of the fault-free export; (2) matrix - every converter "
+                 "failure mode (version check, process, malformed result) x every target state x every converting "
+                 "export; (3) seeded sequences of 1-6 exports with seeded faults. Oracle: file-system snapshots "
+                 "before/after every export. An export is non-trivial when a fault fired or the target pre-existed; "
+                 "distinct by (export kind, fault kind, site or mode, first/later instance, target state)."),
+        "samples": [r["sample"] for r in good if r.get("sample")][:3],
+        "exports": sum(r["exports"] for r in good),
+        "exports_returned": sum(r["returned"] for r in good),
+        "exports_raised": sum(r["raised"] for r in good),
+        "recovery_exports_after_faults": sum(r["recovery_exports"] for r in good),
+        "runs_per_hour": int(len(good) / wall_s * 3600) if wall_s > 0 else 0,
+        "simulated_time": "none (library has no clock); logical steps = traced library boundaries inside exports",
+        "steps": sum(r["steps"] for r in good),
+        "fault_kinds": fk,
+        "site_exhaustive": {"documents": [R.recipe_traits(d) for d in docs], "sites_observed": total_sites,
+                            "sites_with_a_placement_run": len(sites_hit), "placements_planned": len(sjobs),
+                            "placements_run": len(site_done), "placements_fired": site_fired,
+                            "instances": list(tier["instances"]),
+                            "complete_for_listed_documents": len(site_done) == len(sjobs)},
+        "matrix_cells_planned": len(mjobs),
+        "target_state_x_export_x_phase_cells": sorted(cells),
+        "probes": probes,
+        "exhaustive": False,
+        "runs_dispatched": nres, "jobs_planned": len(jobs), "truncated_by_wall_cap": truncated,
+        "known_findings_matched": n_known, "harness_errors": len(herrs),
+        "real_components": ["rtflite incl. LibreOfficeConverter (from /repo/src)", "subprocess", "tempfile", "shutil",
+                            "pathlib", "the file system (tmpfs, and ext4 for cross-device runs)", "pydantic", "polars",
+                            "Pillow"],
+        "stubbed_components": ["the soffice executable (scripted shell script in the sandbox)",
+                               "duck-typed converter objects passed through the public converter= parameter",
+                               "Pillow font loader proxy for the n-th-open-fails fault"],
+        "source_tree_sha256": boot.source_tree_hash(),
+        "workers": core.n_workers(),
+    }
+    core.write_evidence(PROP, opts.tier, opts.seed, "fault_enumeration", cov, [
+        "faults are placed inside the encode and convert phases only (the property's failure clause); failures of the "
+        "final placement (write_text, shutil.move), SIGKILL and torn writes are outside the statement and not judged",
+        "an injected exception at a library call/return boundary outside cleanup regions models 'the call failed'",
+        "the scripted soffice reproduces LibreOffice's naming (<outdir>/<stem>.<fmt>, <name>_files) but not its content",
+        "site enumeration is complete only for the listed documents; seeded sequences sample",
+    ], wall_s, n_new)
